@@ -204,6 +204,24 @@ def run(ctx):
             ctx.nontrivial(json.dumps([vendor, tj]))
 
     vendors = list(reg)
+    # which formatter of a family is the FIRST one a process uses must not matter (the Junos family shares code between juniper, ribbon and
+    # nokia, the exit-word family between cisco, nexus, arista, ...): in forked children -- processes that have not formatted anything yet --
+    # the families are gone through in other orders than below
+    from .c20 import in_fork
+
+    def first_use(order):
+        mark = len(recs)
+        for k in range(12):
+            for v in order:
+                tj = rnd_tree(rnd, 0, 3, 3, WORDS_ASR if v == "iosxr" else WORDS)
+                observe("first-" + "-".join(order[:2]), v, no_leading_hash(tj) if v == "nokia" else tj)
+        return recs[mark:]
+    for order in (["nokia", "juniper", "ribbon"], ["ribbon", "nokia", "juniper"], ["b4com", "arista", "cisco", "nexus", "iosxr"], ["iosxr", "cisco", "b4com"]):
+        got = in_fork(lambda order=order: first_use(order))
+        for r in got:
+            r["id"] = "%s-%d" % (r["id"].rsplit("-", 1)[0], len(recs))
+            recs.append(r)
+            ctx.count()
     for v in vendors:
         reg[v].make_formatter(indent="")        # the deploy path asks every vendor for an unindented formatter first (same process)
     for k, tj in enumerate(trees):
